@@ -122,6 +122,7 @@ def run(c, chk):
     titles_may_be_null(c, chk, ex)
     untitled_does_not_end_search(c, chk, ex)
     unique_titles(c, chk, ex)
+    typed_members(c, chk, 'R9.10')
 
     # ---- R9.3 --------------------------------------------------------------------------------
     sites = title_sites(c, ex)
@@ -269,6 +270,71 @@ def untitled_does_not_end_search(c, chk, ex):
         else:
             chk.ok('R9.9', fname, 'an untitled section is passed over', sample=(fname == 'cfg_opt_gettsecidx'))
     chk.floor('R9.9 untitled-section paths', n, 1)
+
+
+MEMBER_TYPES = {'number': {'INT'}, 'fpnumber': {'FLOAT'}, 'boolean': {'BOOL'}, 'section': {'SEC'},
+                # the two pointer members share their storage and their IR type; a function option keeps its arguments as strings
+                'string': {'STR', 'PTR', 'FUNC'}, 'ptr': {'STR', 'PTR'}}
+
+
+def typed_members(c, chk, rid):
+    """a value slot is a union: which member is live is decided by the type of the option it belongs to.  Every function
+    that reads or writes a member of a value slot has, on that path, tested the option's type for the matching enumerator
+    (itself - the accesses inside a callee are that callee's business).  An entry point that lacks the test treats, when it
+    is called for an option of another type, a number or a string as a section pointer: the wrong-type call is not refused
+    but corrupts memory"""
+    chk.rule(rid, 'every access to a member of a value slot is preceded, on its path, by a test of the option\'s type for the enumerator that member belongs to (a wrong-type call is refused, not carried out on the wrong member)')
+    ex = sym.Explorer(c.modules, max_visits=2, mod_sets=c.mod_sets, max_paths=100000)
+    nacc = 0
+    nfun = 0
+    for f in c.confuse.funcs.values():
+        if f.name in c.unknown_funcs or getattr(f, 'internal', False):
+            continue        # entry points only: a static function is called with options whose type its callers have established
+        bad = None
+        n = 0
+        for p in ex.explore(f):
+            types = set()
+            for cn, t, _ in p.assume:
+                d = pm.describe_cond(cn)
+                neg = d.startswith('not(')
+                if neg:
+                    d = d[4:-1]
+                if '->type eq ' in d and (t != neg):
+                    types.add(d.split(' eq ')[1])
+                if '->type ne ' in d and (t == neg):
+                    types.add(d.split(' ne ')[1])
+            used = {}
+
+            def look(v, ins):
+                def m(x):
+                    if x[0] == 'fld' and len(x) > 3 and x[2] == 'cfg_value_t' and x[3] in MEMBER_TYPES:
+                        used.setdefault(x[3], ins)
+                    return False
+                sym.mentions(v, m)
+            for e in p.events:
+                for v in [e.addr, e.val] + list(e.args or []):
+                    if isinstance(v, tuple):
+                        look(v, e.ins)
+            for cn, t, ins in p.assume:
+                look(cn, ins)
+            if p.retval is not None:
+                look(p.retval, p.last_ins)
+            for m_, ins in used.items():
+                n += 1
+                if not (MEMBER_TYPES[m_] & types):
+                    bad = bad or (m_, ins, p)
+        nacc += n
+        if n:
+            nfun += 1
+        if bad is not None:
+            m_, ins, p = bad
+            chk.fail(rid, 'untyped-member:%s:%s' % (f.name, m_), c.where(ins) if ins is not None else c.where(f),
+                     '%s() uses the member "%s" of a value slot on a path that never tested the option\'s type for %s (%s): called for an option of another type it '
+                     'takes that option\'s number or string for a %s' % (f.name, m_, '/'.join('CFGT_' + x for x in sorted(MEMBER_TYPES[m_])), fp.cond_text(p, 4) or 'no condition',
+                                                                      'section pointer' if m_ == 'section' else m_))
+        elif n:
+            chk.ok(rid, '%s: %d member accesses' % (f.name, n), 'each under a test of the option type', sample=(f.name in ('cfg_setopt', 'cfg_addtsec', 'cfg_opt_getnsec')))
+    chk.floor('%s functions that touch value-slot members' % rid, nfun, 8)
 
 
 def fp_null(cn, t):
